@@ -14,6 +14,8 @@ for n in 1 2; do
   mkdir -p "$tree/seed_out"
   # demos must import the library from the tree they sit in (seed_out/..), not from the agent's worktree
   sed "s#'${SEED_SRC_PREFIX:-/tmp/seed-}$id'#__import__('os').path.dirname(__import__('os').path.dirname(__import__('os').path.abspath(__file__)))#g; s#\"${SEED_SRC_PREFIX:-/tmp/seed-}$id\"#__import__('os').path.dirname(__import__('os').path.dirname(__import__('os').path.abspath(__file__)))#g" "$src/demo$n.py" > "$tree/seed_out/demo$n.py"
+  # helper modules a demo imports from its own directory
+  for h in "$src"/*.py; do case "$(basename "$h")" in demo*.py) ;; *) cp "$h" "$tree/seed_out/";; esac; done
   clean_rc=$( (cd "$tree" && timeout 300 /venv/bin/python seed_out/demo$n.py >/dev/null 2>&1; echo $?) )
   if ! (cd "$tree" && git apply "$src/change$n.diff"); then
     echo "$id-$n: patch does not apply to current /repo"; rm -rf "$tree"; continue
@@ -33,6 +35,7 @@ for n in 1 2; do
   if [ "$clean_rc" = 0 ] && [ "$demo_rc" != 0 ] && [ $ok = 1 ]; then
     d=/verif/seeded/$id-$((n+off)); mkdir -p "$d"
     cp "$src/change$n.diff" "$d/patch.diff"; cp "$tree/seed_out/demo$n.py" "$d/demo.py"; cp "$src/notes.md" "$d/notes.md"
+    for h in "$src"/*.py; do case "$(basename "$h")" in demo*.py) ;; *) cp "$h" "$d/";; esac; done
     /venv/bin/python - "$d" "$id" "$((n+off))" "$tests" "$clean_rc" "$demo_rc" "$results" <<'EOF'
 import json, sys
 d, pid, n, tests, clean_rc, demo_rc, results = sys.argv[1:8]
